@@ -158,6 +158,9 @@ func c10Echo(v string, d *rules.DNSRewrite) string {
 			// repeated key stands
 			written := map[string]string{}
 			for _, f := range fields[2:] {
+				if strings.Count(f, "=") != 1 {
+					return fmt.Sprintf("HTTPS/SVCB parameter %q is not of the form key=value, yet the value is accepted", f)
+				}
 				k, v, _ := strings.Cut(f, "=")
 				written[k] = v
 			}
